@@ -21,6 +21,8 @@ NEEDS = {
     "C03_RobinExplicit": ["f_explicit"], "C03_PeriodicCtor": ["f_ctor"], "C03_PeriodicApply": ["f_apply"],
     "C03_PeriodicSolve": ["f_solve"], "C03_PeriodicExplicit": ["f_explicit"], "C03_InteriorKeptCtor": ["f_ctor"],
     "C03_SolveRowsSatisfied": ["f_solve", "Mbc", "Rbc"], "C03_PlotProfile": ["f_solve", "profile"],
+    "C01_OpenDiffusion": ["Mdiff", "grad", "volume"], "C01_OpenCentral": ["Mconv", "linmean", "volume"],
+    "C01_OpenUpwind": ["Mup", "upmean", "volume"],
     "C01_ClosedDiffusionMid": ["Mdiff"], "C01_ClosedCentralMid": ["Mconv"], "C01_ClosedUpwindMid": ["Mup"],
     "C01_ClosedDivergenceMid": ["divu"], "C01_PeriodicDiffusion": ["Mdiff", "volume"],
     "C01_PeriodicCentral": ["Mconv", "volume"], "C01_PeriodicUpwind": ["Mup", "volume"],
@@ -206,6 +208,8 @@ def run_property(prop, tier, seed, *, clauses_for, n_quick, n_thorough, gen_kw=N
             rep.fail(cl, sig, {"cfg": e["cfg"], "obs": {k: e["obs"][k] for k in e["obs"] if k in
                                set(o for c2 in [cl] for o in NEEDS.get(c2, []))}})
         for b in v["nonconf"]:
+            if b in unknown_out:
+                continue          # an unliftable entry cannot be compared exactly
             rep.nonconform(f"{b}:{cls}")
         for cl in v.get("undecided", []):
             undecided[cl] = undecided.get(cl, 0) + 1
@@ -240,7 +244,7 @@ def run_property(prop, tier, seed, *, clauses_for, n_quick, n_thorough, gen_kw=N
 
 
 DESIGN_INVARIANTS = {
-    "C01": ["DC01", "DC01_Geometric"], "C03": ["DC03"], "C04": ["DC04"], "C05": ["DC05_Diffusion", "DC05_Central", "DC05_Upwind"],
+    "C01": ["DC01", "DC01_Geometric", "DC01_Open"], "C03": ["DC03"], "C04": ["DC04"], "C05": ["DC05_Diffusion", "DC05_Central", "DC05_Upwind"],
     "C06": ["DC06"], "C07": ["DC07"], "C17": ["DC17"],
 }
 
